@@ -199,4 +199,190 @@ theorem kt_ktInv (sel : List Nat) {dims : List Nat} (hp : Pos dims) : ∀ (p k t
       simp only [Prod.mk.injEq, true_and]
       exact Nat.div_add_mod' t _
 
+/-! ### `_Indexer.single` re-encodes the permuted digits -/
+
+/-- digits by repeated division, least significant (= last subsystem) first -/
+def lsb : List Nat → Nat → List Nat
+  | [], _ => []
+  | d :: ds, n => n % d :: lsb ds (n / d)
+
+def dot : List Nat → List Nat → Nat
+  | a :: as, b :: bs => a * b + dot as bs
+  | _, _ => 0
+
+def suf : List Nat → List Nat
+  | [] => []
+  | _ :: ds => size ds :: suf ds
+
+theorem dot_nil_left (b : List Nat) : dot [] b = 0 := by simp [dot]
+theorem dot_nil_right (a : List Nat) : dot a [] = 0 := by cases a <;> simp [dot]
+
+theorem dot_lsb_zero : ∀ (cs ds : List Nat), dot cs (lsb ds 0) = 0
+  | [], _ => dot_nil_left _
+  | _ :: _, [] => by simp [lsb, dot]
+  | c :: cs, d :: ds => by simp [lsb, dot, dot_lsb_zero cs ds]
+
+theorem go_eq : ∀ (l : List (Nat × Nat)) (idx out : Nat),
+    single.go l idx out = out + dot (l.map (·.2)) (lsb (l.map (·.1)) idx)
+  | [], idx, out => by simp [single.go, dot]
+  | (d, c) :: rest, idx, out => by
+    simp only [single.go, List.map_cons, lsb, dot]
+    split
+    · next h => rw [h, dot_lsb_zero]; omega
+    · rw [go_eq rest]; omega
+
+theorem single_eq_dot_lsb (dims cp : List Nat) (idx : Nat) (h : cp.length = dims.length) :
+    single dims cp idx = dot cp.reverse (lsb dims.reverse idx) := by
+  unfold single
+  rw [go_eq, List.map_reverse, List.map_reverse, List.map_fst_zip (by omega), List.map_snd_zip (by omega)]
+  omega
+
+theorem size_snoc (ds : List Nat) (d : Nat) : size (ds ++ [d]) = size ds * d := by
+  induction ds with
+  | nil => simp [size]
+  | cons a ds ih => simp only [List.cons_append, size, ih, Nat.mul_assoc]
+
+theorem digits_snoc (d : Nat) (hd : 0 < d) : ∀ (ds : List Nat) (n : Nat), Pos ds → n < size (ds ++ [d]) →
+    digits (ds ++ [d]) n = digits ds (n / d) ++ [n % d] := by
+  intro ds
+  induction ds with
+  | nil =>
+    intro n _ hn
+    simp only [List.nil_append, size, Nat.mul_one] at hn
+    simp [digits, size, Nat.mod_eq_of_lt hn]
+  | cons a ds ih =>
+    intro n hp hn
+    have hps : Pos ds := fun x hx => hp x (List.mem_cons_of_mem _ hx)
+    have hS : 0 < size ds := size_pos hps
+    simp only [List.cons_append, digits, size_snoc]
+    rw [ih (n % (size ds * d)) hps (by rw [size_snoc]; exact Nat.mod_lt _ (Nat.mul_pos hS hd))]
+    rw [Nat.mod_mul_left_div_self, Nat.mod_mul_left_mod, Nat.div_div_eq_div_mul, Nat.mul_comm d (size ds)]
+
+theorem pos_reverse {r : List Nat} (h : Pos r) : Pos r.reverse := fun x hx => h x (List.mem_reverse.mp hx)
+
+theorem lsb_eq_digits_reverse : ∀ (r : List Nat) (n : Nat), Pos r → n < size r.reverse →
+    lsb r n = (digits r.reverse n).reverse := by
+  intro r
+  induction r with
+  | nil => intro n _ _; simp [lsb, digits]
+  | cons d r ih =>
+    intro n hp hn
+    have hd : 0 < d := hp d List.mem_cons_self
+    have hpr : Pos r := fun x hx => hp x (List.mem_cons_of_mem _ hx)
+    rw [List.reverse_cons] at hn ⊢
+    rw [digits_snoc d hd r.reverse n (pos_reverse hpr) hn, List.reverse_append, List.reverse_singleton, List.singleton_append]
+    simp only [lsb]
+    rw [size_snoc] at hn
+    rw [ih (n / d) hpr (Nat.div_lt_of_lt_mul (by rw [Nat.mul_comm]; exact hn))]
+
+theorem dot_snoc : ∀ (a b : List Nat) (x y : Nat), a.length = b.length → dot (a ++ [x]) (b ++ [y]) = dot a b + x * y
+  | [], [], x, y, _ => by simp [dot]
+  | [], _ :: _, _, _, h => by simp at h
+  | _ :: _, [], _, _, h => by simp at h
+  | a :: as, b :: bs, x, y, h => by
+    simp only [List.cons_append, dot]
+    rw [dot_snoc as bs x y (by simpa using h)]
+    omega
+
+theorem dot_reverse : ∀ (a b : List Nat), a.length = b.length → dot a.reverse b.reverse = dot a b
+  | [], [], _ => rfl
+  | [], _ :: _, h => by simp at h
+  | _ :: _, [], h => by simp at h
+  | a :: as, b :: bs, h => by
+    have h' : as.length = bs.length := by simpa using h
+    rw [List.reverse_cons, List.reverse_cons, dot_snoc _ _ _ _ (by simpa using h'), dot_reverse as bs h']
+    simp only [dot]; omega
+
+theorem digits_length : ∀ (dims : List Nat) (n : Nat), (digits dims n).length = dims.length
+  | [], _ => rfl
+  | _ :: ds, n => by simp [digits, digits_length ds]
+
+/-- the loop of `_Indexer.single`, early exit included, is Σ_k cumprod[k] · digit_k -/
+theorem single_eq_dot (dims cp : List Nat) (idx : Nat) (h : cp.length = dims.length) (hp : Pos dims)
+    (hi : idx < size dims) : single dims cp idx = dot cp (digits dims idx) := by
+  rw [single_eq_dot_lsb dims cp idx h, lsb_eq_digits_reverse dims.reverse idx (pos_reverse hp) (by simpa using hi)]
+  rw [List.reverse_reverse, dot_reverse cp (digits dims idx) (by rw [digits_length]; exact h)]
+
+theorem encode_eq_dot : ∀ (nd gs : List Nat), encode nd gs = dot gs (suf nd)
+  | [], gs => by simp [encode, suf, dot_nil_right]
+  | _ :: _, [] => by simp [encode, dot]
+  | _ :: ds, g :: gs => by simp [encode, suf, dot, encode_eq_dot ds gs]
+
+theorem suf_length : ∀ (nd : List Nat), (suf nd).length = nd.length
+  | [] => rfl
+  | _ :: ds => by simp [suf, suf_length ds]
+
+theorem suf_getD : ∀ (nd : List Nat) (i : Nat), i < nd.length → (suf nd).getD i 0 = size (nd.drop (i + 1))
+  | [], i, h => by simp at h
+  | _ :: ds, 0, _ => by simp [suf]
+  | _ :: ds, i + 1, h => by
+    simp only [suf, List.getD_cons_succ, List.drop_succ_cons]
+    exact suf_getD ds i (by simpa using h)
+
+theorem dot_eq_sum : ∀ (a b : List Nat), a.length = b.length →
+    dot a b = ((List.range a.length).map fun k => a.getD k 0 * b.getD k 0).sum
+  | [], [], _ => rfl
+  | [], _ :: _, h => by simp at h
+  | _ :: _, [], h => by simp at h
+  | a :: as, b :: bs, h => by
+    have h' : as.length = bs.length := by simpa using h
+    simp only [dot, List.length_cons, List.range_succ_eq_map, List.map_cons, List.sum_cons, List.map_map]
+    rw [dot_eq_sum as bs h']
+    simp [Function.comp_def]
+
+theorem map_eq_range_map {α : Type} (l : List Nat) (f : Nat → α) :
+    l.map f = (List.range l.length).map fun i => f (l.getD i 0) := by
+  apply List.ext_getElem
+  · simp
+  · intro i h1 h2
+    simp [List.getD_eq_getElem?_getD, List.getElem?_eq_getElem (by simpa using h1 : i < l.length)]
+
+theorem cumprod_length (dims order : List Nat) : (cumprod dims order).length = dims.length := by
+  simp [cumprod]
+
+theorem cumprod_getD (dims order : List Nat) (k : Nat) (hk : k < dims.length) :
+    (cumprod dims order).getD k 0 =
+      match order.idxOf? k with
+      | some i => size ((newDims dims order).drop (i + 1))
+      | none => 0 := by
+  simp only [cumprod]
+  rw [List.getD_eq_getElem?_getD, List.getElem?_map, List.getElem?_range hk]
+  rfl
+
+/-- **`_Indexer.single` = re-encoding of the permuted digits**, for every list of positive dimensions,
+every permutation of the subsystems and every index. -/
+theorem single_eq_singleSpec (dims order : List Nat) (idx : Nat) (hp : Pos dims)
+    (hperm : order.Perm (List.range dims.length)) (hi : idx < size dims) :
+    single dims (cumprod dims order) idx = singleSpec dims order idx := by
+  have hlen : order.length = dims.length := by simpa using hperm.length_eq
+  have hnodup : order.Nodup := hperm.nodup_iff.mpr List.nodup_range
+  rw [single_eq_dot dims _ idx (cumprod_length dims order) hp hi]
+  unfold singleSpec
+  simp only []
+  rw [encode_eq_dot]
+  have hnd : (newDims dims order).length = order.length := by simp [newDims]
+  rw [dot_eq_sum _ _ (by rw [cumprod_length, digits_length]),
+      dot_eq_sum _ _ (by rw [List.length_map, suf_length, hnd])]
+  rw [cumprod_length, List.length_map]
+  -- left: sum over k in range n of F k; move to a sum over `order`, then over positions of `order`
+  have hF := (hperm.symm.map fun k => (cumprod dims order).getD k 0 * (digits dims idx).getD k 0).sum_nat
+  rw [hF, map_eq_range_map order]
+  congr 1
+  apply List.map_congr_left
+  intro i hi'
+  have hil : i < order.length := List.mem_range.mp hi'
+  have ho : order.getD i 0 = order[i] := by simp [List.getD_eq_getElem?_getD, List.getElem?_eq_getElem hil]
+  have hmem : order[i] ∈ List.range dims.length := hperm.subset (List.getElem_mem hil)
+  have hob : order[i] < dims.length := List.mem_range.mp hmem
+  have hidx : order.idxOf? order[i] = some i := by
+    rw [List.idxOf?_eq_some_iff]
+    refine ⟨hil, rfl, ?_⟩
+    intro j hj heq
+    have := (List.getElem_inj hnodup).mp heq
+    omega
+  rw [ho, cumprod_getD dims order _ hob, hidx]
+  simp only []
+  rw [suf_getD _ i (by rw [hnd]; exact hil)]
+  simp [List.getD_eq_getElem?_getD, List.getElem?_eq_getElem hil, Nat.mul_comm]
+
 end Qv.C09
